@@ -237,6 +237,12 @@ pub enum Op {
     CapProbe,
     Recreate(Ctor),
     HandOver { ops: Vec<Op> },
+    /// a slice entry point asked for an element count no machine can satisfy (bytes above
+    /// isize::MAX, a product that wraps, or simply terabytes): Err / out-of-memory panic, the
+    /// initialiser never runs, nothing changes. entry: 0 fill_with<u64>, 1 fill_copy<u16>,
+    /// 2 fill_clone<u32>, 3 fill_default<u64>, 4 fill_iter<u64>, 5 alloc_slice_try_fill_with<u64>,
+    /// 6 alloc_slice_try_fill_iter<u64>
+    HugeLen { entry: u8, try_: bool, len: usize },
 }
 
 impl Op {
@@ -275,6 +281,7 @@ impl Op {
             Op::AGrow { zeroed: false, .. } => "grow",
             Op::AGrow { zeroed: true, .. } => "grow_zeroed",
             Op::AShrink { .. } => "shrink",
+            Op::HugeLen { .. } => "huge_len",
             Op::Reset => "reset",
             Op::SetLimit(_) => "set_allocation_limit",
             Op::LimitPulse(_) => "limit_pulse",
@@ -302,6 +309,7 @@ impl Op {
             | Op::FillDefault { try_, .. }
             | Op::FillIter { try_, .. }
             | Op::Str { try_, .. }
+            | Op::HugeLen { try_, .. }
             | Op::TryWith { try_, .. } => *try_,
             _ => false,
         }
